@@ -271,9 +271,20 @@ def proof_obligations(work, res, prop_file, coq_ok, coq_log):
     """Record the theorem obligations of props/<file>; a build failure is a
     broken proof obligation."""
     names, ok, out = coq_theorems(work, prop_file)
-    assumptions = re.findall(r"^(Closed under the global context|Axioms:.*?)(?=^\S|\Z)", out, re.S | re.M)
     closed = out.count("Closed under the global context")
-    axioms = sorted(set(re.findall(r"^([A-Za-z0-9_.']+)\s*:", out.split("Axioms:", 1)[1], re.M))) if "Axioms:" in out else []
+    axioms = set()
+    in_ax = False
+    for line in out.splitlines():
+        if line.startswith("Axioms:"):
+            in_ax = True
+            continue
+        if line.startswith("Closed under") or (line and not line[0].isspace() and not re.match(r"^[A-Za-z_][A-Za-z0-9_.']*\s*:", line) and not in_ax):
+            in_ax = False
+        if in_ax:
+            m = re.match(r"^([A-Za-z_][A-Za-z0-9_.']*)\s*:", line)
+            if m:
+                axioms.add(m.group(1))
+    axioms = sorted(axioms)
     res.coverage.update({
         "obligations": len(names),
         "discharged": len(names) if (ok and coq_ok) else 0,
